@@ -156,6 +156,8 @@ namespace sim
   int self() { return t_task ? t_task->id : -1; }
   int num_tasks() { return W ? int(W->tasks.size()) : 0; }
   const Options& options() { return W->opt; }
+  static uint64_t g_run_serial = 0;
+  uint64_t run_serial() { return g_run_serial; }
   uint64_t now_ns() { return W->now; }
   void advance(uint64_t ns) { W->now += ns; }
 
@@ -350,6 +352,7 @@ namespace sim
   long long cfg_int(const char* name, long long lo, long long hi)
   {
     long long v;
+    if(W->st.cfg.count(name)) fail("INFRA", std::string("configuration knob drawn twice in one run: ") + name);
     if(W->opt.replay)
     {
       auto it = W->opt.cfg_in.find(name);
@@ -366,6 +369,7 @@ namespace sim
   long long cfg_weighted(const char* name, const std::vector<int>& weights)
   {
     long long v;
+    if(W->st.cfg.count(name)) fail("INFRA", std::string("configuration knob drawn twice in one run: ") + name);
     if(W->opt.replay)
     {
       auto it = W->opt.cfg_in.find(name);
@@ -693,6 +697,7 @@ namespace sim
     }
     delete W;
     W = new World;
+    ++g_run_serial;
     W->opt = o;
     W->rng.seed(o.seed, o.run);
     sem_init(&W->controller_sem, 0, 0);
@@ -728,7 +733,7 @@ namespace sim
     while(sem_wait(&W->controller_sem) != 0) {}
     W->running = false;
     for(auto& t : W->tasks)
-      if(t->joined_by_core) real::tab().join(t->real_thread, nullptr);
+      if(t->joined_by_core) { real::tab().join(t->real_thread, nullptr); t->joined_by_core = false; }
   }
 
   Stats run_end()
